@@ -139,6 +139,10 @@ def sm_table_stage(work, v, findings, prop, harness, name, c, fields, acc):
         res = lib.tlc(work, "mc_" + name, "CondMC", cond_cfg(c, d_out), workers=1, timeout=c.get("timeout", 900))
     else:
         res = lib.tlc(work, "mc_" + name, "Stackage", sm_cfg(c, d_out), workers=1, timeout=c.get("timeout", 900))
+    sz = os.path.getsize(d_out) if os.path.exists(d_out) else 0
+    if sz > 400 * 1024 * 1024:
+        raise Infra("transition table of instance %s is %d MB (%d states): constants too large for this tier" % (name, sz >> 20, res["distinct"]))
+    lib.log("table %s: %d states, %d MB, TLC %.1fs" % (name, res["distinct"], sz >> 20, res["wall"]))
     summ = work.path("sum_%s.json" % name)
     mm = work.path("mm_%s.ndjson" % name)
     cmd = [harness, "table", "-table", d_out, "-prop", prop, "-depth", str(c["depth"]),
@@ -476,7 +480,7 @@ def c03(work, v, tier):
     traces = [("rand", dict(traces=150 if q else 2000, len=80, fams=["list", "transfer", "marshal", "policy"], caps="1,2,3,4,5,0", maxlen=12, nvals=6))]
     if not q:
         tables = [("cap", dict(Caps=[1, 2, 3, 4], MaxLen=4, Fams=["list", "marshal"], depth=2, walks=3000, wlen=80)),
-                  ("xfer", dict(Caps=[1, 2, 3], MaxLen=3, Fams=["grow", "transfer", "marshal"], Kinds=["AND", "LIST"],
+                  ("xfer", dict(Caps=[1, 2, 3], MaxLen=3, Vals=["nil", "a"], Fams=["grow", "transfer"],
                                 DstCaps=[0, 2], DstOps=["push", "pop"], depth=2, walks=3000, wlen=80)),
                   ("cap-pol", dict(Caps=[1, 2, 3], MaxLen=3, Fams=["grow", "policy", "marshal"], PushLens=[1, 2, 3], depth=2, walks=2000, wlen=60)),
                   ("nocap", dict(Caps=[0], MaxLen=4, Kinds=["AND", "OR", "NOT", "LIST", "BASIC"], Fams=["grow", "marshal"], depth=3, walks=500))]
@@ -593,13 +597,13 @@ C14_FIELDS = ["init", "len", "elems", "err", "integ", "valid", "strsrc", "eqsrc"
 @check("C14")
 def c14(work, v, tier):
     q = tier == "quick"
-    tables = [("policy", dict(Caps=[0, 1, 2], Vals=["nil", "a", "b"], MaxLen=3, Fams=["grow", "policy"], PushLens=[1, 2, 3],
+    tables = [("policy", dict(Caps=[0, 1, 2], Vals=["nil", "a", "b"], MaxLen=3, Fams=["grow", "policy", "err"], PushLens=[1, 2, 3],
                               depth=2, walks=300 if q else 3000, wlen=40))]
     tables.append(("closures", dict(Caps=[0], Kinds=["AND", "OR", "NOT", "LIST", "BASIC"], Vals=["a"], MaxLen=1, PushLens=[1], InitOpts=[[], ["paren"]],
                                     Fams=["closures", "grow", "marshal"], depth=2, walks=300 if q else 3000, wlen=40)))
     tables.append(("cond-closures", dict(machine="cond", KwArgs=["k", ""], OpArgs=["Eq", "nil"], ExArgs=["nil", "s:v", "S"],
                                          CFams=["set", "closures", "life"], COptFlags=[], depth=2, walks=200 if q else 2000)))
-    traces = [("rand", dict(traces=200 if q else 2000, len=60, fams=["list", "policy"], nvals=5, caps="0,1,2,3,5")),
+    traces = [("rand", dict(traces=200 if q else 2000, len=60, fams=["list", "policy", "life"], nvals=5, caps="0,1,2,3,5")),
               ("closures", dict(traces=200 if q else 2000, len=60, fams=["list", "closures", "marshal", "opts"], nvals=4, salt=3))]
     return sm_check(work, v, "C14", tier, tables, traces, C14_FIELDS,
                     ["StepProps: PolicyDecides (nothing rejected is stored; consult log <= offered; a full stack is never consulted; Err set only after a rejection)",
